@@ -57,7 +57,7 @@ func (c *EventCache) Add(event *Event) (added bool) {
 
 	eventKey := c.getEventKey(event)
 
-	if c.isDeleted(eventKey, event.Pubkey) {
+	if c.isDeleted(eventKey, event.Pubkey) || c.isDeleted(event.ID, event.Pubkey) {
 		return false
 	}
 
@@ -115,6 +115,12 @@ func (c *EventCache) deleteByKind5(event *Event) {
 
 	for _, key := range keys {
 		c.delete(eventCacheDeletedEventKey{key, event.Pubkey})
+
+		// an e tag may name a replaceable or addressable event, which is stored
+		// under its address and not under its id
+		for _, ev := range c.evsIndex.FindByID(key) {
+			c.delete(eventCacheDeletedEventKey{c.getEventKey(ev), event.Pubkey})
+		}
 	}
 }
 
@@ -378,6 +384,14 @@ func (c *eventCacheEvsIndex) Delete(event *Event) {
 			delete(c.idx, key)
 		}
 	}
+}
+
+func (c *eventCacheEvsIndex) FindByID(id string) []*Event {
+	var ret []*Event
+	for ev := range c.idx[eventCacheEvsIndexKey{eventCacheEvsIndexKeyWhatID, id}] {
+		ret = append(ret, ev)
+	}
+	return ret
 }
 
 func (c *eventCacheEvsIndex) Find(
